@@ -8,6 +8,7 @@ use std::panic;
 mod text;
 mod ide_cmd;
 mod sweep;
+mod project;
 mod syntax_cmd;
 pub mod util;
 
@@ -20,6 +21,7 @@ fn dispatch(args: &[&str]) -> Option<String> {
         "lcall" | "posall" | "endcols" | "edit" | "editfull" | "semtok" => text::run(args),
         "lex" | "parse" | "parsestat" | "shape" | "lossless" | "defs" | "ancestors" => syntax_cmd::run(args),
         "sweep" => sweep::run(args),
+        "modname" | "projparent" | "lowervfs" | "assemble" => project::run(args),
         _ => ide_cmd::run(args),
     }
 }
